@@ -11,6 +11,7 @@ def run(vc, tier):
     c = vc.Check('C15', tier, 'model_checking', RULE)
     q = tier == 'quick'
     r = c.run_vx_unit('c15-histories', SRC, 'ovf', ['--mode', 0, '--depth', 2 if q else 3, '--D', 1 if q else 2, '--exec-timeout', 120000], share=0.8)
+    c.run_vx_unit('c15-marathon', SRC, 'ovf-limit', ['--mode', 2, '--D', 0, '--exec-timeout', 120000], share=0.5)
     r2 = c.run_vx_unit('c15-decoder-ring', SRC, 'ovf', ['--mode', 1, '--D', 0], share=0.9)
     c.states = r.done.get('outcomes', 0) + r2.done.get('outcomes', 0); c.transitions = r.stats.get('frames', 0) + r2.done.get('executions', 0); c.traces_validated = r.done.get('executions', 0)
     c.extra['overflow_corrections_seen'] = r.stats.get('overflow_corrections_seen', 0)
